@@ -5,6 +5,7 @@ package main
 import (
 	"encoding/hex"
 	"fmt"
+	"os"
 	"math/big"
 	"time"
 
@@ -82,6 +83,13 @@ func (h *hist) block(hook func(ctx sdk.Context), dt time.Duration) *abci.Respons
 	if err != nil {
 		panic(fmt.Sprintf("block %d: %v", len(h.out)+2, err))
 	}
+	if os.Getenv("FXSEAM_DEBUG") != "" {
+		for i, tr := range res.TxResults {
+			if tr.Code != 0 {
+				fmt.Fprintf(os.Stderr, "block %d tx %d failed: %s\n", len(h.out)+2, i, tr.Log)
+			}
+		}
+	}
 	h.out = append(h.out, res)
 	h.txs, h.seqs = nil, map[string]uint64{}
 	return res
@@ -107,6 +115,8 @@ func runHistory(name string) []*abci.ResponseFinalizeBlock {
 		return govFailures()
 	case "tokens-pool-precompiles":
 		return tokensPoolPrecompiles()
+	case "ties-and-timeouts":
+		return tiesAndTimeouts()
 	}
 	panic("unknown history " + name)
 }
@@ -434,5 +444,74 @@ func tokensPoolPrecompiles() []*abci.ResponseFinalizeBlock {
 	if on := len(k.GetAllOracles(w.Committed(), true)); on == len(os) {
 		panic("tokens-pool-precompiles: no oracle went offline after the signed window")
 	}
+	return h.out
+}
+
+// tiesAndTimeouts: objects that tie on every key but their identity - three outgoing bridge calls made in one block
+// (equal timeouts, three different fresh refund addresses), pool transfers of two tokens with equal fees by different
+// senders, batches of both tokens - and one observed event far in the external chain's future at
+// which all of them time out together: the calls are refunded (new accounts are created for the refund addresses), the
+// batches are cancelled and their transfers return to the pool, from which their owners cancel them in one block.
+func tiesAndTimeouts() []*abci.ResponseFinalizeBlock {
+	w := world.New(world.Config{Validators: 2, Actors: []string{"bank", "u1", "u2", "rel"}})
+	h := &hist{w: w, seqs: map[string]uint64{}}
+	u1, u2, rel := w.A("u1"), w.A("u2"), w.A("rel")
+	chain := "eth"
+	var os []scen.Oracle
+	var usdt scen.Token
+	nonces := map[string]uint64{}
+	h.block(func(ctx sdk.Context) {
+		os = scen.SetupOracles(w, ctx, chain, []string{"o1", "o2", "o3"}, []int64{10000, 10000, 10000})
+		osm := map[string][]scen.Oracle{chain: os}
+		scen.RegisterFX(w, ctx, osm, nonces, 1000)
+		usdt = scen.RegisterModuleToken(w, ctx, "USDT", osm, nonces, 1000)
+		scen.Fund(w, ctx, rel.Acc(), sdk.NewCoins(world.FXCoin(10)))
+		for _, u := range []world.Actor{u1, u2} {
+			nonces[chain]++
+			scen.Observe(w, ctx, chain, os, scen.SendToFxClaim(chain, nonces[chain], 1001, usdt.Ext[chain], 100, scen.ExtAddr(chain, "depositor"), u.Acc(), "", ""))
+			if r := w.CallABI(ctx, rel, cctypes.GetAddress(), cctypes.GetABI(), nil, 3_000_000, "executeClaim", chain, new(big.Int).SetUint64(nonces[chain])); !r.Success() {
+				panic("ties-and-timeouts: executeClaim: " + r.String())
+			}
+		}
+	}, world.BlockTime)
+	// one block: three bridge calls with fresh refund addresses, four pool transfers with equal fees
+	for i, u := range []world.Actor{u1, u2, u1} {
+		refund := world.NewActor(fmt.Sprintf("fresh-refund-%d", i))
+		h.cosmos(u, &cctypes.MsgBridgeCall{ChainName: chain, Sender: u.Bech(), Refund: refund.Bech(), Coins: sdk.NewCoins(sdk.NewInt64Coin("usdt", 2)), To: scen.ExtAddr(chain, "callee"), Data: "0" + fmt.Sprint(i+1), Value: sdkmath.ZeroInt()})
+	}
+	for _, u := range []world.Actor{u2, u1} {
+		h.cosmos(u, &cctypes.MsgSendToExternal{ChainName: chain, Sender: u.Bech(), Dest: scen.ExtAddr(chain, u.Name+"-ext"), Amount: sdk.NewInt64Coin("usdt", 3), BridgeFee: sdk.NewInt64Coin("usdt", 1)},
+			&cctypes.MsgSendToExternal{ChainName: chain, Sender: u.Bech(), Dest: scen.ExtAddr(chain, u.Name+"-ext"), Amount: sdk.NewInt64Coin("FX", 3), BridgeFee: sdk.NewInt64Coin("FX", 1)})
+	}
+	h.block(nil, world.BlockTime)
+	// batches of both tokens (the module builds one batch per block)
+	h.cosmos(os[0].Bridger, &cctypes.MsgRequestBatch{ChainName: chain, Sender: os[0].Bridger.Bech(), Denom: usdt.Bridge[chain], MinimumFee: sdkmath.NewInt(1), FeeReceive: scen.ExtAddr(chain, "feercv"), BaseFee: sdkmath.ZeroInt()})
+	h.block(nil, world.BlockTime)
+	h.cosmos(os[1].Bridger, &cctypes.MsgRequestBatch{ChainName: chain, Sender: os[1].Bridger.Bech(), Denom: "FX", MinimumFee: sdkmath.NewInt(1), FeeReceive: scen.ExtAddr(chain, "feercv"), BaseFee: sdkmath.ZeroInt()})
+	h.block(nil, world.BlockTime)
+	k := scen.Keeper(w, chain)
+	if n := len(k.GetOutgoingTxBatches(w.Committed())); n != 2 {
+		panic(fmt.Sprintf("ties-and-timeouts: %d batches, the history needs 2", n))
+	}
+	// an event observed far in the external future: everything times out at once
+	nonces[chain]++
+	for _, o := range os {
+		h.cosmos(o.Bridger, scen.WrapClaim(chain, o.Bridger.Bech(), scen.SendToFxClaim(chain, nonces[chain], 100_000_000, usdt.Ext[chain], 1, scen.ExtAddr(chain, "depositor"), u1.Acc(), "", o.Bridger.Bech())))
+	}
+	h.block(nil, world.BlockTime)
+	ctx := w.Committed()
+	if n := len(k.GetOutgoingTxBatches(ctx)); n != 0 {
+		panic(fmt.Sprintf("ties-and-timeouts: %d batches survive the timeout", n))
+	}
+	for i := uint64(1); i <= 3; i++ {
+		if _, ok := k.GetOutgoingBridgeCallByNonce(ctx, i); ok {
+			panic(fmt.Sprintf("ties-and-timeouts: bridge call %d survives the timeout", i))
+		}
+	}
+	// the owners cancel their returned transfers in one block
+	h.cosmos(u2, &cctypes.MsgCancelSendToExternal{ChainName: chain, TransactionId: 1, Sender: u2.Bech()}, &cctypes.MsgCancelSendToExternal{ChainName: chain, TransactionId: 2, Sender: u2.Bech()})
+	h.cosmos(u1, &cctypes.MsgCancelSendToExternal{ChainName: chain, TransactionId: 3, Sender: u1.Bech()}, &cctypes.MsgCancelSendToExternal{ChainName: chain, TransactionId: 4, Sender: u1.Bech()})
+	h.block(nil, world.BlockTime)
+	h.block(nil, world.BlockTime)
 	return h.out
 }
